@@ -281,11 +281,16 @@ def run_layout_case(work, c, seed):
             g.calllog[:] = []
             cap_ev = event_cap(data, ev.get("ueb", {}).get("segment_size", 1))
             start_read(events, node, "r0", data, 0, None, lit=lit)
-            alive = pump(g, events, cap_ev) >= 0
+            both = rng.random() < 0.4
+            if both:
+                # the second whole-file read starts while the first is in flight on the same node object (a
+                # frontend that keeps one node per open file): both must round-trip
+                start_read(events, node, "r1", data, 0, c["size"] + rng.choice([0, 0, 1, 7]), lit=lit)
+            alive = pump(g, events, (2 if both else 1) * cap_ev) >= 0
             ns = node_sizes(node)
             if ns:
                 events.append(ns)
-            if alive:
+            if alive and not both:
                 # a second read on the same (now warmed) node: explicit size
                 start_read(events, node, "r1", data, 0, c["size"] + rng.choice([0, 0, 1, 7]), lit=lit)
                 pump(g, events, 2 * cap_ev)
